@@ -22,8 +22,21 @@ ASSUMPTIONS = [
 BUDGET = {'quick': {'examples': 2000}, 'thorough': {'examples': 16000, 'shards': 16}}
 
 
+def _question_heavy(case: Dict[str, Any], n: int, seed: int, keep_records: int) -> Dict[str, Any]:
+    # a query whose question section alone needs several datagrams (100-400 questions), with no or very few records after it
+    case = dict(case)
+    case['response'] = False
+    case['an'], case['ns'], case['ar'] = case['an'][:keep_records], [], case['ar'][:keep_records]
+    case['bulk'] = {'seed': seed, 'n': n, 'sections': 'q', 'target': 0, 'delta': 0, 'pos': 'last', 'share': 0, 'kinds': 'all'}
+    return case
+
+
 def strategy(tier: str):
-    return msgcase.message_case(size_directed_share=6)
+    from hypothesis import strategies as st
+
+    base = msgcase.message_case(size_directed_share=6)
+    heavy = st.builds(_question_heavy, base, st.integers(100, 400), st.integers(0, 2**31), st.sampled_from([0, 0, 1, 2]))
+    return st.one_of(base, base, base, base, base, base, base, heavy)
 
 
 def check(case: Dict[str, Any]) -> Dict[str, Any]:
@@ -31,6 +44,10 @@ def check(case: Dict[str, Any]) -> Dict[str, Any]:
     if packets is None:
         return {'nontrivial': False, 'classes': ['rejected-NamePartTooLong']}
     is_query = not case['response']
+    if is_query and len(secs['q']) >= 100 and len(packets) > 1:
+        heavy_q = True
+    else:
+        heavy_q = False
     ind = {'qd': [], 'an': [], 'ns': [], 'ar': []}
     classes = []
     single_big = False
@@ -75,6 +92,8 @@ def check(case: Dict[str, Any]) -> Dict[str, Any]:
     if single_big:
         classes.append('single-entry>1460')
     classes.append('query' if is_query else 'response')
+    if heavy_q:
+        classes.append('question-section-spans-datagrams')
     classes.append('multicast' if case['multicast'] else 'unicast')
     return {
         'nontrivial': len(packets) > 1 or near or single_big,
